@@ -69,6 +69,12 @@ BeliefsExact == done =>
         LET hs == HolderSeq(x) IN
         VecProd([k \in DOMAIN hs |-> MTI(hs[k], x)], 2) = MargOf(Net, <<x>>)
   /\ \A i \in DOMAIN Net : Denote(Local(i), Net[i].inds) = MargOf(Net, Net[i].inds)
+\* the hoisted table of products is LTensor!Denote, and its sums are Denote's sums
+FastAgrees == done =>
+  /\ JointOf(Net, AllLabels(Net)) = Denote(Net, AllLabels(Net))
+  /\ ZOf(Net) = DenoteScalar(Net)
+  /\ \A x \in NetLabels(Net) : MargOf(Net, <<x>>) = Denote(Net, <<x>>)
+  /\ \A i \in DOMAIN Net : MargOf(Net, Net[i].inds) = Denote(Net, Net[i].inds)
 \* index -> tensor messages are the products of the other tensor -> index messages
 DefsAgree == done =>
   \A i \in DOMAIN Net : \A k \in DOMAIN Net[i].inds :
